@@ -264,6 +264,7 @@ func run(c Case) (pbt.Outcome, error) {
 		return e
 	}
 	recordedAfterSnap := false
+	viaDerived := false
 	for oi, op := range c.Ops {
 		ms := scopes[op.S%len(scopes)]
 		switch op.K {
@@ -341,7 +342,16 @@ func run(c Case) (pbt.Outcome, error) {
 			}
 			recordedAfterSnap = len(snaps) > 0
 		case "snap":
-			s := ts.Snapshot()
+			// taken through the root or through any scope derived from it (open or closed): the
+			// snapshot is that of the whole tree either way
+			via := ts
+			if d, ok := ms.s.(tally.TestScope); ok && !ms.inert {
+				via = d
+				if ms != scopes[0] {
+					viaDerived = true
+				}
+			}
+			s := via.Snapshot()
 			if op.Which == 1 {
 				if len(snaps) < 4 {
 					snaps = append(snaps, held{s, w.view()}) // not read yet: compared with the model of this moment at the end
@@ -444,6 +454,9 @@ func run(c Case) (pbt.Outcome, error) {
 	}
 	if recordedAfterSnap {
 		out.Classes = append(out.Classes, "record-after-snapshot")
+	}
+	if viaDerived {
+		out.Classes = append(out.Classes, "snapshot-through-derived-scope")
 	}
 	return out, errs.Err()
 }
